@@ -206,9 +206,15 @@ class DictList(list):
             self._dict = {}
         _dict = self._dict
         current_length = len(self)
-        list.extend(self, iterable)
-        for i, obj in enumerate(islice(self, current_length, None), current_length):
-            the_id = obj.id
+        try:
+            list.extend(self, iterable)
+            new_ids = [obj.id for obj in islice(self, current_length, None)]
+        except Exception:
+            # an iterable that raises part-way or an entry without identifier:
+            # nothing has been indexed yet, drop what list.extend stored
+            list.__delitem__(self, slice(current_length, None))
+            raise
+        for i, the_id in enumerate(new_ids, current_length):
             if the_id not in _dict:
                 _dict[the_id] = i
             else:
